@@ -151,6 +151,14 @@ func init() {
 		panic("verifSignbit")
 	}
 	verifIntrinsics["verifDeepDigest"] = func(in *Interp, fr *frame, a []Value) Value { return "" }
+	// verifRaceTrack(on): happens-before checking of every heap access from now on (race.go)
+	verifIntrinsics["verifRaceTrack"] = func(in *Interp, fr *frame, a []Value) Value {
+		in.raceOn = a[0].(bool)
+		if in.raceOn && in.shadows == nil {
+			in.shadows = map[*Value]*shadow{}
+		}
+		return nil
+	}
 	verifIntrinsics["verifSteps"] = func(in *Interp, _ *frame, a []Value) Value { return int64(in.steps) }
 	verifIntrinsics["verifSymbolic"] = func(in *Interp, _ *frame, a []Value) Value { return true }
 
